@@ -45,6 +45,10 @@ Record hnd := mkh {
 Definition h_open (F : bytes) (o : oopts) : hnd :=
   mkh (len F) (len F) false (zeros (o_buf o)) 0 0 (o_ro o) (o_retry o) (o_auto o) false.
 
+(* a read-only Open is given no write buffer (as multiapp does) *)
+Definition ro_nobuf (o : oopts) : oopts :=
+  mko (o_ro o) (if o_ro o then 0 else o_buf o) (o_retry o) (o_auto o).
+
 Definition h_offset (h : hnd) : N := h_fo h + (h_uw h - h_fl h).
 
 Definition h_set_buf (h : hnd) (w : bytes) (fl uw : N) : hnd :=
@@ -176,7 +180,10 @@ Definition s_step (s : sapp) (o : op) : sapp * out :=
   | Discard off => (s, h_discard h off)
   | SwitchRO => let '(h', F', x) := h_switch_ro h F in (mks h' F' m, x)
   | Close => let '(h', F', x) := h_close h F in (mks h' F' m, x)
-  | Reopen o => if h_closed h then (mks (h_open F o) F m, OOk) else (s, OErr)
+  | Reopen o =>
+      if h_closed h then
+        if opts_valid o then (mks (h_open F (ro_nobuf o)) F m, OOk) else (s, OErr)
+      else (s, OErr)
   | Meta => (s, OBytes m)
   end.
 
